@@ -7,6 +7,7 @@ import itertools
 import re
 import sys
 import tokenize  # (the standard library's: only its open() is used)
+import warnings
 import unicodedata  # (CPython loads it on the first \N{...} escape it decodes; see _FSTRING_TEXT_PIECES)
 from collections.abc import Callable
 from typing import TYPE_CHECKING, Any, ClassVar, Literal, NoReturn, TypeVar, cast
@@ -599,6 +600,12 @@ class Parser:
         if kind is None and text == "0" and rest[0] in "oObBxX":
             kind = {"o": "octal", "b": "binary", "x": "hexadecimal"}[rest[0].lower()]
         elif rest.startswith(self._AFTER_NUMBER):
+            # accepted, with CPython's warning (an error where warnings are errors)
+            message = f"invalid {'imaginary' if text[-1] in 'jJ' else 'decimal'} literal"
+            try:
+                warnings.warn_explicit(message, SyntaxWarning, self.filename, token.start[0])
+            except SyntaxWarning:
+                self.raise_syntax_error_known_location(message, token)
             return
         if kind is None:
             kind = "imaginary" if text[-1] in "jJ" else "decimal"
@@ -1236,6 +1243,8 @@ class Parser:
         # read in one piece (the path may be readable only once: a pipe, /dev/stdin) and decoded as CPython decodes a source
         # file: UTF-8 unless a coding declaration (PEP 263) says otherwise, a UTF-8 byte order mark is not part of the source
         source = cls._decode_source(path.read_bytes(), path.name)
+        if "\0" in source:
+            raise SyntaxError("source code string cannot contain null bytes", (path.name, source[: source.index("\0")].count("\n") + 1, 1, ""))
         tok_stream = generate_tokens(io.StringIO(source, newline=None).readline)
         tokenizer = Tokenizer(tok_stream, verbose=verbose, path=str(path))
         tokenizer._lines = dict(enumerate(io.StringIO(source, newline=None).readlines(), 1))
@@ -1281,6 +1290,8 @@ class Parser:
         verbose: bool = False,
     ) -> Any:
         """Parse a string."""
+        if "\0" in source:
+            raise SyntaxError("source code string cannot contain null bytes")
         # universal newlines, as parse_file (text mode) and CPython read a source: "\r\n" and a lone "\r" end a line like "\n"
         tok_stream = generate_tokens(io.StringIO(source, newline=None).readline)
         tokenizer = Tokenizer(tok_stream, verbose=verbose)
